@@ -24,19 +24,22 @@ fn gen_history(start: u32, rollover: bool, steps: usize) -> (Vec<u32>, BTreeMap<
     let mut travelled: u64 = 0;
     for _ in 0..n_sent {
         sent.push(c);
-        let jump = match tape::biased(6, 150) {
+        let jump = match tape::biased(7, 150) {
             0 => 1,
             1 => 2 + tape::choose(14),
             2 => 16,
             3 => 17 + tape::choose(100),
             4 => 1 << (4 + tape::choose(24)),
+            // A unicast sender may jump by any amount (there is no roll-over to confuse it with)
+            6 if !rollover => (1u32 << 31).wrapping_sub(3).wrapping_add(tape::choose(1 << 12)),
+            6 => 1 << 27,
             _ => 15,
         };
         if jump > 1 {
             *fired.entry("sender_jump").or_default() += 1;
         }
         travelled += jump as u64;
-        if travelled >= (1 << 31) {
+        if rollover && travelled >= (1 << 31) {
             break;
         }
         if rollover {
@@ -318,6 +321,88 @@ impl Scenario for GroupScenario {
     }
 }
 
+/// C04, system level with a raw peer: a conforming peer other than rs-matter, holding the keys of
+/// its sessions, sends authentic messages whose counters jump by any amount, arrive duplicated
+/// and reordered (next to the ordinary traffic between the stacks). Receive-window verdicts of
+/// the real stack (guarded event hook) against the model.
+pub struct RawPeerCounters;
+
+impl Scenario for RawPeerCounters {
+    fn property(&self) -> &'static str {
+        "C04"
+    }
+    fn name(&self) -> &'static str {
+        "system-raw-peer-counters"
+    }
+
+    fn run(&self, seed: u64) -> Outcome {
+        use crate::kernel::MS;
+        use crate::props::mrp_oracles::check_c04_sys;
+        use crate::props::mrp_props::common_counters;
+        use crate::worlds::mrp::{Kind, Planted, OP_APP, PROTO_APP};
+        use crate::worlds::mrp_drive::{drive, gen_cfg, MrpKnobs, RawMsg, RAW_NODE};
+
+        let mut cfg = gen_cfg(seed, &MrpKnobs::full());
+        let n_raw = 1 + tape::choose(2) as usize;
+        let mut fired_all: BTreeMap<&'static str, u64> = BTreeMap::new();
+        let mut t_end = 0u64;
+        for i in 0..n_raw {
+            let idx = cfg.planted.len();
+            let mut r = crate::tape::Rng::new(seed ^ (0xE0 + i as u64));
+            let mut key = [0u8; 16];
+            key[..8].copy_from_slice(&r.next_u64().to_le_bytes());
+            key[8..].copy_from_slice(&r.next_u64().to_le_bytes());
+            cfg.planted.push(Planted {
+                kind: if tape::choose(2) == 1 { Kind::Pase } else { Kind::Case },
+                a: tape::choose(2) as usize,
+                b: RAW_NODE,
+                a_local_sid: 60 + i as u16,
+                b_local_sid: 70 + i as u16,
+                a_nodeid: 0x1111_0200 + i as u64,
+                b_nodeid: 0x3333_0000 + i as u64,
+                key_ab: key,
+                key_ba: key.map(|b| b ^ 0x5a),
+            });
+            let (hist, fired) = gen_history(start_value(), false, 40);
+            for (k, v) in fired {
+                *fired_all.entry(k).or_default() += v;
+            }
+            let spacing = [2u64, 20, 60][tape::choose(3) as usize];
+            for (k, ctr) in hist.iter().enumerate() {
+                let at = (5 + k as u64 * spacing) * MS;
+                t_end = t_end.max(at);
+                cfg.raw_msgs.push(RawMsg {
+                    at_us: at,
+                    planted: idx,
+                    ctr: *ctr,
+                    // A retransmitted / duplicated datagram is the same message: same exchange
+                    exch_id: 0x4000 + (*ctr as u16 ^ (*ctr >> 16) as u16) % 0x3000,
+                    initiator: true,
+                    reliable: tape::biased(2, 300) == 1,
+                    ack: None,
+                    vendor: None,
+                    proto_id: PROTO_APP,
+                    opcode: OP_APP,
+                    payload: format!("RAW{i}-{ctr:08x}").into_bytes(),
+                });
+            }
+        }
+        cfg.hold_until_us = t_end + 500 * MS;
+        let run = drive(seed, cfg);
+        let mut out = Outcome::default();
+        common_counters(&run, &mut out);
+        for (k, v) in &fired_all {
+            out.count(&format!("fault_raw_{k}"), *v);
+        }
+        out.count("raw_datagrams", run.cfg.raw_msgs.len() as u64);
+        check_c04_sys(&run, &mut out);
+        out.nontrivial = run.cfg.raw_msgs.len() >= 2;
+        out.sample = Some(json!({"raw_sessions": n_raw,
+            "raw_counters": run.cfg.raw_msgs.iter().take(24).map(|m| format!("{:#x}", m.ctr)).collect::<Vec<_>>()}));
+        out
+    }
+}
+
 pub fn defs() -> Vec<PropertyDef> {
     use crate::props::mrp_props::{MrpScenario, Which};
     use crate::worlds::mrp_drive::MrpKnobs;
@@ -349,8 +434,13 @@ pub fn defs() -> Vec<PropertyDef> {
                 weight: 5,
                 fault_free: false,
             },
+            Family {
+                scenario: Box::new(RawPeerCounters),
+                weight: 4,
+                fault_free: false,
+            },
         ],
-        rule: "component families: one run = one sender history (start value around 0 / 2^28 / 2^31 / 2^32-1 or random, jumps 1..2^28) pushed through a simulated network (drop, duplicate, reorder within / beyond the 16-entry window) into the real RxCtrState / GroupCtrStore (up to 20 senders, LRU eviction) and a reference model; system family: two real stacks under the datagram adversary with the receive-window verdict of every datagram (guarded event hook) checked against the model; distinct = distinct trace hash (system) or distinct arrival history (component); non-trivial = >= 2 arrivals and at least one network fault or jump fired",
+        rule: "component families: one run = one sender history (start value around 0 / 2^28 / 2^31 / 2^32-1 or random, jumps 1..2^28) pushed through a simulated network (drop, duplicate, reorder within / beyond the 16-entry window) into the real RxCtrState / GroupCtrStore (up to 20 senders, LRU eviction) and a reference model; system family: two real stacks under the datagram adversary with the receive-window verdict of every datagram (guarded event hook) checked against the model; system-raw-peer-counters: the same two stacks plus a raw peer (harness-made, authentic under the keys of 1-2 extra sessions, standing for a conforming implementation other than rs-matter) whose counters start anywhere, jump by up to 2^31 and arrive dropped, duplicated and reordered; distinct = distinct trace hash (system) or distinct arrival history (component); non-trivial = >= 2 arrivals and at least one network fault or jump fired",
         assumptions: vec![
             "component families are model-based tests of a pure state machine driven by simulated network histories; the system family is the part only a simulator reaches",
             "reference model written from the property statement (set of accepted counters + maximum + 16-entry window), not from the code",
